@@ -112,6 +112,47 @@ def cmdDecode (m : List (String × String)) : Option String := do
   | none => pure "err"
   | some p => pure s!"ok reenc={bytesToHex (Codec.encode p)} rounds={p.li.length} tag={p.tag}"
 
+open Model.Transcript in
+def evOfStr (t : String) : Option Event :=
+  match t.splitOn "." with
+  | ["a", l, msg] => do
+    let lb ← hexToBytes l
+    let mb ← hexToBytes msg
+    pure (Event.append (String.ofList (lb.map (fun b => Char.ofNat b.toNat))) mb)
+  | ["c", l, n] => do
+    let lb ← hexToBytes l
+    pure (Event.challenge (String.ofList (lb.map (fun b => Char.ofNat b.toNat))) (← n.toNat?))
+  | _ => none
+
+open Model.Transcript in
+def strOfEv : Event → String
+  | .append l m => s!"a.{bytesToHex l.toUTF8.toList}.{bytesToHex m}"
+  | .challenge l n => s!"c.{bytesToHex l.toUTF8.toList}.{n}"
+
+open Model.Transcript in
+def cmdEvents (m : List (String × String)) : Option String := do
+  let nat (k : String) : Option Nat := do (← get m k).toNat?
+  let bytes (k : String) : Option (List UInt8) := do hexToBytes (← get m k)
+  let ctx ← (splitOn' (← get m "ctx") ",").mapM evOfStr
+  let gb ← (splitOn' (← get m "gb") ",").mapM hexToBytes
+  let cs ← (splitOn' (← get m "cs") ",").mapM hexToBytes
+  let ps ← natList (← get m "ps")
+  let lrs ← (splitOn' (← get m "lrs") ",").mapM (fun s =>
+    match s.splitOn ":" with
+    | [l, r] => do pure ((← hexToBytes l), (← hexToBytes r))
+    | _ => none)
+  let d1 ← (splitOn' (← get m "d1") ",").mapM hexToBytes
+  let x : Pub := { hb := (← bytes "hb"), gb := gb, n := (← nat "n"), t := (← nat "t"), m := (← nat "m"), cs := cs, ps := ps }
+  let A ← bytes "A"
+  let a1 ← bytes "A1"
+  let b ← bytes "B"
+  let r1 ← bytes "r1"
+  let s1 ← bytes "s1"
+  let who ← get m "who"
+  let evs := if who == "prover" then beforeFinal ctx x A lrs a1 b ++ [Event.challenge "e" 64]
+    else fullEvents ctx x A lrs a1 b r1 s1 d1
+  pure s!"ev={",".intercalate ((evs.drop ctx.length).map strOfEv)}"
+
 def okerr (b : Bool) : String := if b then "ok" else "err"
 
 def cmdCtor (m : List (String × String)) : Option String := do
@@ -147,6 +188,7 @@ def step (line : String) : String :=
       | "decode" => cmdDecode m
       | "ctor" => cmdCtor m
       | "guards" => cmdGuards m
+      | "events" => cmdEvents m
       | _ => none
     match r with
     | some s => s
